@@ -198,6 +198,90 @@ func c11Open(tables []string, contents map[string][]int, st c11Stats) *c11World 
 	return w
 }
 
+// ---- build sides that do not fit one temporary page ------------------------------------------------------
+// The hash join materialises its build side in temporary pages; the contents above never fill one. These
+// contents do: wide rows (nine 600-byte strings), many medium rows (150 x ~30 bytes) and many narrow rows.
+
+func c11WideDefs() map[string]TableDef {
+	return map[string]TableDef{
+		"lw": {Name: "lw", Cols: []ColDef{{"k", TInt}, {"s", TStr}}},
+		"r":  {Name: "r", Cols: []ColDef{{"k2", TInt}, {"b", TInt}}},
+	}
+}
+
+func c11WideContents(name string) map[string][][]any {
+	out := map[string][][]any{}
+	rSmall := [][]any{{int32(0), int32(0)}, {int32(1), int32(10)}, {int32(2), int32(20)}, {int32(2), int32(21)}, {int32(7), int32(70)}}
+	switch name {
+	case "wide9":
+		for i := 0; i < 9; i++ {
+			out["lw"] = append(out["lw"], []any{int32(i % 3), bigStr(fmt.Sprintf("w%d", i), 600)})
+		}
+		out["r"] = rSmall
+	case "medium150":
+		for i := 0; i < 150; i++ {
+			out["lw"] = append(out["lw"], []any{int32(i % 5), fmt.Sprintf("s%03d-%s", i, strings.Repeat("m", 5+i%23))})
+		}
+		out["r"] = rSmall
+	case "narrow400":
+		out["lw"] = [][]any{{int32(1), "one"}, {int32(2), "two"}, {int32(2), "zwei"}}
+		for i := 0; i < 400; i++ {
+			out["r"] = append(out["r"], []any{int32(i % 4), int32(i)})
+		}
+	}
+	return out
+}
+
+var c11WideNames = []string{"wide9", "medium150", "narrow400"}
+
+func c11OpenWide(name string, analysed bool) *c11World {
+	w := &c11World{tabs: map[string]*jTable{}}
+	w.dir = NewDir("c11w")
+	db, f := OpenDB(w.dir+"/d", 512)
+	if f != nil {
+		panic(f.String())
+	}
+	w.db = db
+	defs := c11WideDefs()
+	cont := c11WideContents(name)
+	for _, t := range []string{"lw", "r"} {
+		td := defs[t]
+		db.MustAuto(td.CreateSQL())
+		rows := cont[t]
+		for i := 0; i < len(rows); i += 50 {
+			j := min(i+50, len(rows))
+			db.MustAuto((&Stmt{Kind: "insert", Table: t, Cols: []string{td.Cols[0].Name, td.Cols[1].Name}, Rows: rows[i:j]}).SQL())
+		}
+		w.tabs[t] = &jTable{Def: td, Rows: rows}
+	}
+	if analysed {
+		tx := db.Begin()
+		for _, tm := range db.Cat().GetAllTables() {
+			if f := guard(func() { tm.GetStatistics().Update(tm, tx.T) }); f != nil {
+				panic("statistics update: " + f.String())
+			}
+		}
+		tx.Commit()
+	}
+	return w
+}
+
+func c11WideQueries() []*jQuery {
+	var qs []*jQuery
+	for _, order := range [][]string{{"lw", "r"}, {"r", "lw"}} {
+		on := [4]string{"lw", "k", "r", "k2"}
+		if order[0] == "r" {
+			on = [4]string{"r", "k2", "lw", "k"}
+		}
+		for _, sel := range [][][2]string{nil, {{"lw", "s"}, {"r", "b"}}, {{"r", "b"}, {"lw", "k"}}} {
+			for _, wh := range [][]jLeaf{nil, {{"lw", "k", "=", int32(1)}}, {{"r", "b", ">=", int32(10)}}} {
+				qs = append(qs, &jQuery{Tables: order, On: [][4]string{on}, OnInWhere: []bool{false}, Where: wh, Sel: sel})
+			}
+		}
+	}
+	return qs
+}
+
 func (w *c11World) Close() {
 	w.db.Kill()
 	removeAll(w.dir)
@@ -291,6 +375,7 @@ func c11Run(c *core.Ctx) {
 	res.Bound["table_contents"] = fmt.Sprintf("%d key multisets per table (0-%d rows, keys 1-3)", len(contents), 3)
 	res.Bound["statistics_states"] = len(stats)
 	item := 0
+	wideName := ""
 	check := func(w *c11World, q *jQuery, st c11Stats) {
 		sql := q.SQL()
 		want := q.eval(w.tabs)
@@ -345,12 +430,42 @@ func c11Run(c *core.Ctx) {
 					keys[t] = append(keys[t], int(r[0].(int32)))
 				}
 			}
+			if wideName != "" {
+				cont = []string{"contents " + wideName + fmt.Sprintf(" (lw: %d rows, r: %d rows)", len(w.tabs["lw"].Rows), len(w.tabs["r"].Rows))}
+				keys = nil
+				clause += "/large-build-side"
+			}
 			res.Violate(&core.Violation{Property: "C11", Signature: "join/" + clause,
-				Detail: fmt.Sprintf("%s\n  tables: %s; statistics: %s\n  plan  : %s\n  %s", sql, strings.Join(cont, " "), st.Name, strs[i], detail),
-				Replay: map[string]any{"sql": sql, "table_keys": keys, "tables": q.Tables, "statistics": st.Name, "plan_choices": pf.String(), "plan": strs[i]}})
+				Detail: fmt.Sprintf("%s\n  tables: %s; statistics: %s\n  plan  : %s\n  %s", sql, strings.Join(cont, " "), st.Name, strs[i], firstN(detail, 600)),
+				Replay: map[string]any{"sql": sql, "table_keys": keys, "wide": wideName, "tables": q.Tables, "statistics": st.Name, "plan_choices": pf.String(), "plan": strs[i]}})
 			if r.Fail != nil {
 				return
 			}
+		}
+	}
+	// build sides larger than one temporary page
+	res.Bound["large_build_sides"] = fmt.Sprintf("%v x statistics {never-updated, current} x %d queries, every plan", c11WideNames, len(c11WideQueries()))
+	for _, name := range c11WideNames {
+		for _, analysed := range []bool{false, true} {
+			item++
+			if !c.Mine(item) {
+				continue
+			}
+			if c.Expired() {
+				return
+			}
+			w := c11OpenWide(name, analysed)
+			res.States++
+			stName := "never-updated"
+			if analysed {
+				stName = "current"
+			}
+			wideName = name
+			for _, q := range c11WideQueries() {
+				check(w, q, c11Stats{Name: stName, Cur: analysed})
+			}
+			wideName = ""
+			w.Close()
 		}
 	}
 	// two tables
@@ -406,6 +521,8 @@ func c11Run(c *core.Ctx) {
 	}
 }
 
+func c11PlanKindPlaceholder() {}
+
 func c11PlanKind(s string) string {
 	var ks []string
 	for _, k := range []string{"HashJoin", "IndexJoin", "NestedLoopJoin"} {
@@ -438,7 +555,7 @@ func init() {
 			if tier == "thorough" {
 				return 30 * time.Minute
 			}
-			return 170 * time.Second
+			return 300 * time.Second
 		},
 		Assume: []string{
 			"supported join form (README): INNER JOIN with a single equality in each ON clause; for three tables the second equality is written in WHERE; WHERE is a conjunction of `table.column op constant` leaves",
@@ -466,8 +583,25 @@ func c11Replay(raw json.RawMessage) (string, bool) {
 		Tables  []string         `json:"tables"`
 		Stats   string           `json:"statistics"`
 		Choices string           `json:"plan_choices"`
+		Wide    string           `json:"wide"`
 	}
 	json.Unmarshal(raw, &rp)
+	if rp.Wide != "" {
+		for _, q := range c11WideQueries() {
+			if q.SQL() != rp.SQL {
+				continue
+			}
+			w := c11OpenWide(rp.Wide, rp.Stats == "current")
+			defer w.Close()
+			want := q.eval(w.tabs)
+			SetPlanChoices(ParsePlanChoices(rp.Choices))
+			r := w.db.Auto(rp.SQL)
+			SetPlanChoices(nil)
+			ok := r.Fail == nil && r.Rows.Canon() == want.Canon()
+			return fmt.Sprintf("%s\ncontents %s statistics %s\nrecorded plan choices -> agrees with the naive evaluation: %v (engine %d rows, naive %d rows) %v", rp.SQL, rp.Wide, rp.Stats, ok, len(r.Rows), len(want), r.Fail), !ok
+		}
+		return "query not found among the enumerated ones: " + rp.SQL, false
+	}
 	var st c11Stats
 	for _, s := range c11AllStats {
 		if s.Name == rp.Stats {
